@@ -236,6 +236,22 @@ func c18eval(c c18Case) (out []ev.Finding, hashes []uint64) {
 	preds0 := c18predicates(stmt.Condition)
 	prevNodes := -1
 	valuer := &influxql.NowValuer{Now: cmNow, Location: z}
+	var twin *influxql.SelectStatement
+	if t2, err := influxql.ParseStatement(text); err == nil && len(c.Windows) > 1 {
+		twin = t2.(*influxql.SelectStatement)
+	}
+	defer func() {
+		// whatever happened to the first statement since, the second still selects the one window it was given
+		if twin == nil || len(out) > 0 {
+			return
+		}
+		w := c18windows[c.Windows[0]]
+		_, tr, cerr := influxql.ConditionExpr(twin.Condition, valuer)
+		if cerr != nil || tr.MinTimeNano() != w.start.UnixNano() || tr.MaxTimeNano() != w.end.UnixNano()-1 {
+			out = append(out, ev.Finding{Sig: "window-of-another-statement-disturbed:" + ev.SigSafe(timeForm), Witness: wit,
+				Detail: fmt.Sprintf("a second statement with the same text was given window %d once; after the first statement went through windows %v its condition is %s (%v)", c.Windows[0], c.Windows, twin.Condition, cerr), Case: c, Rank: rank})
+		}
+	}()
 	for step, wi := range c.Windows {
 		w := c18windows[wi]
 		var serr error
@@ -246,6 +262,12 @@ func c18eval(c c18Case) (out []ev.Finding, hashes []uint64) {
 			return append(out, ev.Finding{Sig: "error:SetTimeRange:" + ev.SigSafe(timeForm), Witness: wit, Detail: fmt.Sprintf("call %d failed: %v", step+1, serr), Case: c, Rank: rank}), hashes
 		}
 		hashes = append(hashes, astx.Hash(astx.Full, stmt))
+		if step == 0 && twin != nil {
+			// a second statement with the same condition is given the same window, once; the first then moves on
+			if p, _ := try(func() { serr = twin.SetTimeRange(w.start, w.end) }); p != nil || serr != nil {
+				twin = nil
+			}
+		}
 		cond := stmt.Condition
 		// I1: the splitter sees exactly the last window
 		resid, tr, cerr := influxql.ConditionExpr(cond, valuer)
@@ -332,6 +354,12 @@ func c18run(r *ev.Run) {
 		}
 	}
 	rec(nil)
+	if maxSeq < 3 {
+		// the same window three times in a row (a shortcut for "nothing changed" has to be right too)
+		for w := range c18windows {
+			seqs = append(seqs, []int{w, w, w})
+		}
+	}
 	bare := n - 1
 	explore := func(atoms []int, shape, zone int) {
 		// BFS over histories; every history is replayed on a fresh statement. A history whose final state was
